@@ -86,7 +86,16 @@ impl Q32E2 {
 
     #[inline]
     pub fn neg(&mut self) {
-        self.0 = self.0.wrapping_neg();
+        // two's complement of the whole 512-bit accumulator (zero and NaR are fixed points)
+        let mut bits = self.to_bits();
+        let mut carry = true;
+        let mut i = bits.len();
+        while i > 0 {
+            i -= 1;
+            bits[i] = (!bits[i]).wrapping_add(carry as u64);
+            carry = carry && (bits[i] == 0);
+        }
+        *self = Self::from_bits(bits);
     }
 
     #[inline]
